@@ -17,7 +17,7 @@ import time
 import uuid
 
 VERIF = os.path.dirname(os.path.dirname(os.path.abspath(__file__)))
-REPO = os.environ.get("RQ_REPO", "/repo")
+REPO = os.environ.get("RQ_REPO") or "/repo"
 CACHE = os.path.join(VERIF, ".cache")
 DRIVER_DIR = os.path.join(VERIF, "driver")
 DRIVER = os.path.join(DRIVER_DIR, "target", "release", "rq-facts")
